@@ -42,6 +42,16 @@ const PLACEMENTS = {
   'while-unbraced-body': (R) => `let ${R} = 0;\nfunction f(act) {\n  const v = $.p(act, 1) + $.p(act, 2);\n  while (${R} < 1) ${R}++;\n  return v;\n}\nconst rd = () => ${R};\nconst after = () => $.u('outer', rd());`,
   'default-param-value': (R) => `let ${R} = 'U1';\nconst f = (act, q = ${R}) => {\n  const v = $.p(act, 1) + $.p(act, 2);\n  $.u('q', q);\n  return v;\n};`,
   'return-argument': (R) => `let ${R} = 'U1';\nfunction f(act) {\n  const v = $.p(act, 1) + $.p(act, 2);\n  $.u('v', v.length > 0);\n  return ${R};\n}`,
+  'instance-field-initialiser': (R) => `let ${R} = 'U1';\nfunction f(act) {\n  class K { x = ${R}; }\n  const v = $.p(act, 1) + $.p(act, 2);\n  $.u('field', new K().x);\n  return v;\n}`,
+  'private-field-initialiser': (R) => `let ${R} = 'U1';\nfunction f(act) {\n  class K { #x = ${R}; get() { return this.#x; } }\n  const v = $.p(act, 1) + $.p(act, 2);\n  $.u('field', new K().get());\n  return v;\n}`,
+  'instance-field-arrow': (R) => `let ${R} = 'U1';\nfunction f(act) {\n  class K { x = () => ${R}; }\n  const v = $.p(act, 1) + $.p(act, 2);\n  $.u('field', new K().x());\n  return v;\n}`,
+  'instance-field-arrow-writes': (R) => `let ${R} = 'U1';\nconst rd = () => ${R};\nfunction f(act) {\n  class K { #w = (x) => (${R} = x); poke(x) { return this.#w(x); } }\n  const v = $.p(act, 1) + $.u('poke', new K().poke('U2')) + $.p(act, 2);\n  return v;\n}\nconst after = () => $.u('outer', rd());`,
+  'static-field-initialiser': (R) => `let ${R} = 'U1';\nfunction f(act) {\n  const v = $.p(act, 1) + $.p(act, 2);\n  class K { static x = ${R}; }\n  $.u('field', K.x);\n  return v;\n}`,
+  'static-block': (R) => `let ${R} = 'U1';\nfunction f(act) {\n  const v = $.p(act, 1) + $.p(act, 2);\n  class K { static { $.u('sb', ${R}); } }\n  return v;\n}`,
+  'computed-class-key': (R) => `let ${R} = 'U1';\nfunction f(act) {\n  const v = $.p(act, 1) + $.p(act, 2);\n  class K { [${R}]() { return 'm'; } }\n  $.u('key', Object.getOwnPropertyNames(K.prototype).join());\n  return v;\n}`,
+  'class-method-body': (R) => `let ${R} = 'U1';\nfunction f(act) {\n  class K { m() { return ${R}; } get g() { return ${R}; } }\n  const v = $.p(act, 1) + $.p(act, 2);\n  $.u('m', new K().m() + new K().g);\n  return v;\n}`,
+  'class-heritage': (R) => `let ${R} = class { h() { return 'U1'; } };\nfunction f(act) {\n  const v = $.p(act, 1) + $.p(act, 2);\n  class K extends ${R} {}\n  $.u('h', new K().h());\n  return v;\n}`,
+  'object-method-and-getter': (R) => `let ${R} = 'U1';\nfunction f(act) {\n  const o = { m() { return ${R}; }, get g() { return ${R}; }, [${R}]: 1 };\n  const v = $.p(act, 1) + $.p(act, 2);\n  $.u('o', o.m() + o.g + Object.keys(o).join());\n  return v;\n}`,
   'else-if-unbraced': (R) => `let ${R} = 'U1';\nfunction f(act) {\n  const v = $.p(act, 1) + $.p(act, 2);\n  if ($.u('c', 0)) { v.length; } else if ($.u('d', 1)) ${R} = 'U3';\n  const w = $.p(act, 3) + $.p(act, 4);\n  return v + w;\n}\nconst rd = () => ${R};\nconst after = () => $.u('outer', rd());`
 }
 
